@@ -11,6 +11,7 @@ from fractions import Fraction
 
 from ..core import frac
 from . import _c08ext as _ext
+from . import _c08lab as _lab   # round 5: re_label pattern / from_label
 
 LEVEL = "proof"
 RULE = ("random region tables (1..4 dozen rows; chromosome names 1..22/X/Y/M/MT, 3-digit numbers, alt/random/Un/hap "
@@ -43,6 +44,11 @@ RULE = ("random region tables (1..4 dozen rows; chromosome names 1..22/X/Y/M/MT,
         "the Lean model reading ITS OWN spelled lines, byte for byte [tab_spell]; (g) chromosome labels (ASCII; any "
         "prefix case, alt/random/Un, leading zeros, empty) -> sort key of the real sorter_chrom vs the hand model vs the "
         "function regenerated from the source text [src_key]; regions -> to_label -> from_label likewise [src_label]. "
+        "(h) label texts (valid chr:start-end with/without gene part and trailing newline, open-ended chr:start- / chr:-end, "
+        "no chromosome, near misses with one character replaced/inserted/removed, random strings over the label alphabet) "
+        "-> re_label.match(text).groups() and from_label(text, keep_gene) of the real code (value or ValueError) vs the "
+        "pattern AST regenerated from the source under the Lean backtracking semantics, the hand parser and the full "
+        "from_label model [lab_parse]. "
         "non-trivial = table has >= 2 rows on >= 2 chromosomes or an extra column; distinct by hash of the case")
 EXHAUSTIVE = {"quick": False, "thorough": False}
 ASSUMPTIONS = [
@@ -59,7 +65,7 @@ ASSUMPTIONS = [
     "read_auto returns for a VCF is judged by the harness against the regions it wrote (coordinates, alleles, order); "
     "SEG renaming options are tied by handing the Lean reader the same file with the names already replaced",
 ]
-TRUSTED_EXTRA = ["pandas read_csv / to_csv tokenising, dtype inference and NA spellings", "Python re for the sniff patterns and re_label",
+TRUSTED_EXTRA = ["pandas read_csv / to_csv tokenising, dtype inference and NA spellings", "Python re for the sniff patterns; for re_label only Python's pattern PARSER (re._parser, read by harness/extractors/regex_label.py) and the backtracking semantics of Model/FormatsExt5Label.lean are trusted, and the latter is compared with re_label.match on every run (ASCII texts; \\s on the control characters 0x1c-0x1f is outside)",
                  "Python/pandas decimal printing of ints; C/Python '%.6g' (compared byte for byte with the Lean model on every run)",
                  "harness/extractors/exprs_chromsort.py: reading of the Python str subset (Model/PyStr.lean primitives)", "pandas stable multi-key mergesort on (tuple key, start, end)"]
 
@@ -814,6 +820,7 @@ def corpus():
     cases.append({"op": "fmt_roundtrip", "tag": "corpus-numbers",
                   "in": {"wfmt": "tab", "rfmt": "tab", "cna": True, "t0": {"names": ["gene", "log2"], "rows": rows}}})
     cases.extend(_ext.corpus(_table))
+    cases.extend(_lab.corpus())
     return cases
 
 
@@ -837,6 +844,7 @@ def gen_cases(rng, tier):
         for _ in range(20 * n):
             cases.append(_malformed(rng))
     cases.extend(_ext.gen_cases(rng, tier, _table))   # round 4: after everything else, so earlier case streams are unchanged
+    cases.extend(_lab.gen_cases(rng, tier))   # round 5: likewise last
     return cases
 
 
@@ -995,6 +1003,8 @@ def run_impl(case):
     from skgenome import tabio
 
     op, i = case["op"], case["in"]
+    if op in _lab.EXT_OPS:
+        return _lab.run_impl(case)
     if op in _ext.EXT_OPS:
         return _ext.run_impl(case, {"read_lines": _read_lines, "array": _array, "writer": _writer, "reader": _reader, "canon": _canon})
     d = tempfile.mkdtemp(dir="/var/tmp", prefix="c08-")
@@ -1105,6 +1115,8 @@ def _is_err(impl):
 
 def to_line(case, impl):
     op, i = case["op"], case["in"]
+    if op in _lab.EXT_OPS:
+        return _lab.to_line(case, impl, _is_err)
     if op in _ext.EXT_OPS:
         return _ext.to_line(case, impl, _is_err)
     if op == "fmt_read":
@@ -1219,6 +1231,8 @@ def _outside(msg):
 
 def judge(case, impl, resp):
     op, tag = case["op"], case.get("tag", "")
+    if op in _lab.EXT_OPS:
+        return _lab.judge(case, impl, resp, _is_err)
     if op in _ext.EXT_OPS:
         return _ext.judge(case, impl, resp, _is_err)
     if "error" in resp and "out" not in resp:
@@ -1308,6 +1322,8 @@ def judge(case, impl, resp):
 
 def nontrivial(case, impl, resp):
     i = case["in"]
+    if case["op"] in _lab.EXT_OPS:
+        return _lab.nontrivial(case, impl, resp)
     if case["op"] in _ext.EXT_OPS:
         return _ext.nontrivial(case, impl, resp)
     if case["op"] == "fmt_read":
@@ -1325,6 +1341,9 @@ def nontrivial(case, impl, resp):
 
 def shrink(case):
     op, i = case["op"], case["in"]
+    if op in _lab.EXT_OPS:
+        yield from _lab.shrink(case)
+        return
     if op == "fmt_roundtrip":
         rows = i["t0"]["rows"]
         for k in range(len(rows)):
